@@ -640,6 +640,15 @@ def deco_with(f):
     def d(g):
         return g
     return d
+def deco_many(*fs):
+    keep(*fs)
+    def d(g):
+        return g
+    return d
+class cm:
+    def __init__(self, *a): pass
+    def __enter__(self): return self
+    def __exit__(self, *a): return False
 '''
 
 NAMES = ['x', 'y', 'z', 'u', 'v', 'w']
@@ -728,7 +737,9 @@ class LamGen:
         v = 'T%d' % self.n
         k = r.choice(['single', 'single', 'tuple', 'tuple', 'tuple_same', 'tuple_ml', 'tuple_ml', 'nested', 'default',
                       'call', 'comp', 'bs', 'after_str', 'dict', 'posonly_pair', 'non_ascii',
-                      'semi', 'semi', 'semi'])
+                      'semi', 'semi', 'semi',
+                      'def_default', 'def_default', 'lam_default', 'comp_clause', 'comp_clause', 'with_item',
+                      'deco_args', 'case_guard'])
         if k == 'single':
             t, _, _ = self.lam(multiline=r.random() < 0.2)
             if '\n' in t:
@@ -778,6 +789,50 @@ class LamGen:
             t, _, _ = self.lam()
             head, body = t.split(': ', 1)
             self.emitm(ind, '%s = keep(%s: \\\n%s  %s)' % (v, head, ind, body))
+        elif k in ('def_default', 'lam_default', 'comp_clause', 'with_item', 'deco_args', 'case_guard'):
+            # a lambda inside a container node that carries no line number of its own (ast.arguments, ast.comprehension,
+            # ast.withitem, ast.match_case) or inside decorator arguments, paired with 0-2 further lambdas on the same
+            # physical line OUTSIDE that container (same or different signatures)
+            nin = r.choice([1, 1, 2])
+            inside, like = [], None
+            for _ in range(nin):
+                t, sg, _ = self.lam(allow_posonly=r.random() < 0.3)
+                like = sg
+                inside.append(t)
+            outside = []
+            for _ in range(r.choice([0, 1, 1, 2])):
+                t, sg, _ = self.lam(like=like if r.random() < 0.5 else None, allow_posonly=r.random() < 0.3)
+                outside.append(t)
+            outs = ''.join(', ' + t for t in outside)
+            if k == 'def_default':
+                params = ', '.join('f%d=%s' % (i, t) for i, t in enumerate(inside))
+                if r.random() < 0.4 and len(inside) == 2:
+                    params = 'f0=%s, *, f1=%s' % tuple(inside)
+                rets = ', '.join('f%d' % i for i in range(len(inside)))
+                self.emitm(ind, 'def h%d(%s): return keep(%s%s)' % (self.n, params, rets, outs))
+                self.emitm(ind, 'h%d()' % self.n)
+            elif k == 'lam_default':
+                self.tag += 1
+                params = ', '.join('f%d=%s' % (i, t) for i, t in enumerate(inside))
+                self.emitm(ind, '%s = keep(lambda q, %s: (%d, q + G)%s)' % (v, params, self.tag, outs))
+                self.emitm(ind, 'keep(*%s[0].__defaults__)' % v)
+            elif k == 'comp_clause':
+                it = inside[0]
+                cond = ' if keep(%s)' % inside[1] if len(inside) > 1 else ''
+                br = r.choice(['[]', '()', '{}'])
+                comp = '%s1 for _f in keep(%s)%s%s' % (br[0], it, cond, br[1])
+                self.emitm(ind, '%s = (list(%s)%s)' % (v, comp, ''.join(', keep(%s)' % t for t in outside) or ', 0'))
+            elif k == 'with_item':
+                items = ', '.join('cm(keep(%s))' % t for t in inside)
+                body = 'keep(%s)' % ', '.join(outside) if outside else 'pass'
+                self.emitm(ind, 'with %s as _w: %s' % (items, body))
+            elif k == 'deco_args':
+                self.emitm(ind, '@deco_many(%s%s)' % (', '.join(inside), outs))
+                self.emitm(ind, 'def d%d(): pass' % self.n)
+            else:
+                body = 'keep(%s)' % ', '.join(outside) if outside else 'pass'
+                self.emitm(ind, 'match G:')
+                self.emitm(ind, '    case _ if keep(%s): %s' % (', '.join(inside), body))
         elif k == 'semi':
             # several simple statements on ONE physical line separated by ';', each containing lambdas with the same or
             # different signatures (at module level these are distinct top-level statements with the same lineno)
